@@ -95,6 +95,12 @@ func c03GenIndexed(i int, r *Rand, tier string) interface{} {
 		n := 4 + r.Intn(5)
 		var segs []string
 		for j := 0; j < n; j++ {
+			if r.Chance(1, 6) {
+				// a backslash is an ordinary character of a name here; a path cleaner that treats
+				// it as a separator at the wrong moment lets "..\x" through its climbing check
+				segs = append(segs, []string{"..\\viewOUT", "..\\s", "..\\..", "\\", "s\\..\\..\\s", "..\\view\\..\\viewOUT"}[r.Intn(6)])
+				continue
+			}
 			segs = append(segs, c03Segs[r.Intn(len(c03Segs))])
 		}
 		p := strings.Join(segs, "/")
